@@ -464,7 +464,11 @@ func (c *Ctx) structSort(name string, st *types.Struct, busy map[string]bool) *S
 	for i := 0; i < st.NumFields(); i++ {
 		f := st.Field(i)
 		fsort := c.sortOfRec(f.Type(), busy)
-		fl := &Field{Name: f.Name(), Sort: fsort, Go: f.Type(), Sel: key + "." + sanitize(f.Name())}
+		fname := f.Name()
+		if fname == "_" {
+			fname = fmt.Sprintf("_blank%d", i)
+		}
+		fl := &Field{Name: fname, Sort: fsort, Go: f.Type(), Sel: key + "." + sanitize(fname)}
 		s.Fields = append(s.Fields, fl)
 		fs = append(fs, fmt.Sprintf("(%s %s)", fl.Sel, fsort.Name))
 	}
@@ -571,6 +575,9 @@ func (c *Ctx) typeFactsQ(t Term, gt types.Type, q int, depth int) Term {
 	case KMap:
 		facts := []Term{app(sortBool, "<=", tInt(0), c.mapCard(t))}
 		facts = append(facts, tImp(c.mapNil(t), tEq(c.mapCard(t), tInt(0))))
+		// a map holding a key has at least one element (cardinality is otherwise an abstract integer)
+		kq := fmt.Sprintf("k!h%d", depth)
+		facts = append(facts, Term{S: quantPat(fmt.Sprintf("(%s %s)", kq, t.Sort.Key.Name), fmt.Sprintf("(=> (select %s %s) (>= %s 1))", c.mapDom(t).S, kq, c.mapCard(t).S), fmt.Sprintf("(select %s %s)", c.mapDom(t).S, kq)), Sort: sortBool})
 		if m, ok := gt.Underlying().(*types.Map); ok && q > 0 {
 			kn := fmt.Sprintf("k!q%d", depth)
 			k := Term{S: kn, Sort: t.Sort.Key}
